@@ -1,6 +1,10 @@
 import TnVerif.Lemmas.Arith
 import TnVerif.Lemmas.Reverse
 import TnVerif.Model.Automata
+import TnVerif.Lemmas.AcceptedArr
+import TnVerif.Lemmas.AcceptedTT
+import TnVerif.Lemmas.AcceptedSum
+import TnVerif.Props.C01
 /-!
 # C16 — weight automata accept exactly the strings they describe
 
@@ -186,5 +190,161 @@ theorem oneHot_spec (r ns : Nat) (rest : List Nat) (s : Nat) (is : List Nat) (k 
     have := Finset.mem_range.mp hc
     have : ¬ c = s := by omega
     simp [this]
+
+
+/-! ### `accepted_inputs` : the depth-first listing of the accepted strings
+
+`acceptedSpec shape v` is the specification, defined independently of the code: the indices of the box
+in lexicographic order (`lexBox`), each index `idx` repeated `v idx` times.  `toNat` stands for the
+rounding of the code (`.double().round()` … `.long()`, and Python's `round` of the total); all that is
+assumed of it is that it returns `n` on the scalar `n`. -/
+
+/-- **`accepted_inputs`, pure-TT input**: for a well-formed tensor in pure TT format with boundary
+    ranks 1 whose entries are the natural numbers `v idx`, the returned matrix lists every index of the
+    box, in lexicographic order, `v idx` times — i.e. exactly the indices with a non-zero entry, each
+    repeated as many times as its value, in alphabetical order; no reserved row is left unfilled and
+    nothing is written outside the rows reserved for it. -/
+theorem accepted_inputs_spec (toNat : R → Nat) (htn : ∀ n : Nat, toNat (n : R) = n)
+    (t : Tensor R) (ht : t.WF) (hp : t.isPureTT = true) (hb : t.boundaryOne = true)
+    (v : List Nat → Nat) (hv : ∀ idx, inShape idx t.shape → t.dense idx = (v idx : R)) :
+    t.acceptedInputs toNat = some (acceptedSpec t.shape v) := by
+  have hnf := noFac_of_pure t hp
+  cases t with
+  | nil => exact absurd ht (by simp [Tensor.WF])
+  | cons m ms =>
+    have hsum : toNat (sumAllTT (m :: ms)) = boxSum (Tensor.shape (m :: ms)) v := by
+      rw [sumAllTT_eq _ hnf (by simp), boxSum_congr_inShape _ _ (fun idx => ((v idx : Nat) : R)) hv, ← cast_boxSum, htn]
+    have hlist := acceptedList_spec toNat htn (m :: ms) m.core.rl Vec.ones v ⟨hnf, ht, by
+      intro is his
+      rw [← hv is his]
+      simp only [resid, Vec.ones, one_mul, Tensor.dense, dense, Tensor.modes, List.map_cons, sumTo_eq, TMode.toMode_rl]⟩
+    simp only [Tensor.acceptedInputs, tt_of_pure _ hp, hb, if_true, hsum, hlist]
+
+/-- **`accepted_inputs`, any format**: the same for a well-formed tensor in any format (CP / TT cores,
+    with or without Tucker factors) whose pure-TT form `t.tt()` has boundary ranks 1. -/
+theorem accepted_inputs_spec_any (toNat : R → Nat) (htn : ∀ n : Nat, toNat (n : R) = n)
+    (t : Tensor R) (ht : t.WF) (hb : t.tt.boundaryOne = true)
+    (v : List Nat → Nat) (hv : ∀ idx, inShape idx t.shape → t.dense idx = (v idx : R)) :
+    t.acceptedInputs toNat = some (acceptedSpec t.shape v) := by
+  have h1 : t.acceptedInputs toNat = t.tt.acceptedInputs toNat := by
+    simp only [Tensor.acceptedInputs, tt_of_pure _ (tt_pure t)]
+  rw [h1, ← tt_shape t]
+  apply accepted_inputs_spec toNat htn t.tt (tt_WF t ht) (tt_pure t) hb v
+  intro idx hidx
+  rw [C01.tt_dense t ht idx]
+  exact hv idx (by rw [← tt_shape t]; exact hidx)
+
+/-- **the array-level run agrees**: under the same hypotheses the exact sequence of writes
+    `Xs[bound + c[i] : bound + c[i+1], mu] = i` into the zero matrix of `round(tn.sum(t))` rows yields
+    the same matrix. -/
+theorem accepted_inputs_arr_spec (toNat : R → Nat) (htn : ∀ n : Nat, toNat (n : R) = n)
+    (t : Tensor R) (ht : t.WF) (hb : t.tt.boundaryOne = true)
+    (v : List Nat → Nat) (hv : ∀ idx, inShape idx t.shape → t.dense idx = (v idx : R)) :
+    t.acceptedInputsArr toNat = some (acceptedSpec t.shape v) := by
+  rw [← accepted_inputs_spec_any toNat htn t ht hb v hv]
+  apply acceptedInputsArr_eq
+  have hw := tt_WF t ht
+  have hnf := noFac_of_pure _ (tt_pure t)
+  cases htt : t.tt with
+  | nil => rw [htt] at hw; exact absurd hw (by simp [Tensor.WF])
+  | cons m ms =>
+    rw [htt] at hw hnf
+    apply noOverflow_of_natValued toNat htn (m :: ms) m.core.rl Vec.ones (fun idx => v idx)
+    refine ⟨hnf, hw, ?_⟩
+    intro is his
+    have hd := C01.tt_dense t ht is
+    rw [htt] at hd
+    rw [← hv is (by rw [← tt_shape t, htt]; exact his), ← hd]
+    simp only [resid, Vec.ones, one_mul, Tensor.dense, dense, Tensor.modes, List.map_cons, sumTo_eq, TMode.toMode_rl]
+
+/-- **refinement** (no hypothesis on the values): whenever no call of the recursion fills in more rows
+    than its caller reserved for it, the array-level model and the list-level model return the same
+    matrix. -/
+theorem accepted_inputs_arr_refines {S : Type} [Zero S] [One S] [Add S] [Mul S] (toNat : S → Nat) (t : Tensor S)
+    (h : NoOverflow toNat t.tt (rightsList t.tt).tail Vec.ones) :
+    t.acceptedInputsArr toNat = t.acceptedInputs toNat :=
+  acceptedInputsArr_eq toNat t h
+
+/-- **number of rows**: the matrix allocated by the code, with `round(tn.sum(t))` rows, has exactly as
+    many rows as there are accepted strings counted with multiplicity, `Σ_idx v idx`. -/
+theorem accepted_inputs_length (toNat : R → Nat) (htn : ∀ n : Nat, toNat (n : R) = n)
+    (t : Tensor R) (ht : t.WF) (hb : t.tt.boundaryOne = true)
+    (v : List Nat → Nat) (hv : ∀ idx, inShape idx t.shape → t.dense idx = (v idx : R)) :
+    toNat (sumAllTT t.tt) = boxSum t.shape v ∧
+    ∃ out, t.acceptedInputs toNat = some out ∧ out.length = boxSum t.shape v := by
+  refine ⟨?_, _, accepted_inputs_spec_any toNat htn t ht hb v hv, length_acceptedSpec _ _⟩
+  have hw := tt_WF t ht
+  rw [sumAllTT_eq _ (noFac_of_pure _ (tt_pure t)) (by intro h; rw [h] at hw; exact hw), tt_shape,
+    boxSum_congr_inShape _ _ (fun idx => ((v idx : Nat) : R)) (fun idx hidx => by rw [C01.tt_dense t ht idx]; exact hv idx hidx),
+    ← cast_boxSum, htn]
+
+/-- the scalar `sumAllTT` whose rounding is the number of allocated rows is exactly what the model of
+    `tn.sum(t)` (all modes summed: `tn.ttm` with ones, then `tn.squeeze`) returns on a pure-TT tensor;
+    by `accepted_inputs_length` it equals `Σ_idx t[idx]`. -/
+theorem accepted_rows_eq_tn_sum (t : Tensor R) (hp : t.isPureTT = true) (hne : t ≠ []) :
+    t.sum (List.replicate t.length true) = .ok (.inr (sumAllTT t)) :=
+  sum_all_eq t hp hne
+
+/-- **order**: the returned rows are sorted lexicographically (weakly: equal rows are adjacent). -/
+theorem accepted_inputs_sorted (toNat : R → Nat) (htn : ∀ n : Nat, toNat (n : R) = n)
+    (t : Tensor R) (ht : t.WF) (hb : t.tt.boundaryOne = true)
+    (v : List Nat → Nat) (hv : ∀ idx, inShape idx t.shape → t.dense idx = (v idx : R)) :
+    ∃ out, t.acceptedInputs toNat = some out ∧ out.Pairwise (fun a b => a < b ∨ a = b) :=
+  ⟨_, accepted_inputs_spec_any toNat htn t ht hb v hv, acceptedSpec_sorted _ _⟩
+
+/-- **membership and multiplicity**: a row `idx` occurs in the output iff it is an index of the box
+    with a non-zero entry, and every index of the box occurs exactly `v idx` times. -/
+theorem accepted_inputs_count (toNat : R → Nat) (htn : ∀ n : Nat, toNat (n : R) = n)
+    (t : Tensor R) (ht : t.WF) (hb : t.tt.boundaryOne = true)
+    (v : List Nat → Nat) (hv : ∀ idx, inShape idx t.shape → t.dense idx = (v idx : R)) :
+    ∃ out, t.acceptedInputs toNat = some out ∧
+      (∀ idx, idx ∈ out ↔ inShape idx t.shape ∧ v idx ≠ 0) ∧
+      (∀ idx, inShape idx t.shape → out.count idx = v idx) :=
+  ⟨_, accepted_inputs_spec_any toNat htn t ht hb v hv, mem_acceptedSpec _ _, count_acceptedSpec _ _⟩
+
+/-! non-vacuity: a 2 × 3 tensor with entries `[[2, 0, 1], [0, 3, 0]]` in pure TT format over ℕ (rounding = identity) -/
+def exT : Tensor Nat :=
+  [ { core := .tt 1 2 2 (fun _ s b => if b = s then 1 else 0), U := none },
+    { core := .tt 2 3 1 (fun a s _ => if a = 0 then (if s = 0 then 2 else if s = 2 then 1 else 0)
+                                        else (if s = 1 then 3 else 0)), U := none } ]
+def exV : List Nat → Nat
+  | [0, 0] => 2 | [0, 2] => 1 | [1, 1] => 3 | _ => 0
+
+/-- the hypotheses of `accepted_inputs_spec` hold for `exT` with the values `exV` -/
+example : exT.WF ∧ exT.isPureTT = true ∧ exT.boundaryOne = true ∧
+    (∀ idx, inShape idx exT.shape → exT.dense idx = (exV idx : Nat)) := by
+  refine ⟨by simp [exT, Tensor.WF, Tensor.WFfrom, TMode.ok], by decide, by decide, ?_⟩
+  intro idx h
+  match idx, h with
+  | [i, j], h =>
+    simp only [exT, Tensor.shape, List.map_cons, List.map_nil, TMode.n, Core.spatial, inShape] at h
+    obtain ⟨hi, hj, _⟩ := h
+    have h1 : i = 0 ∨ i = 1 := by omega
+    have h2 : j = 0 ∨ j = 1 ∨ j = 2 := by omega
+    rcases h1 with rfl | rfl <;> rcases h2 with rfl | rfl | rfl <;> decide
+/-- and both models compute the listing -/
+example : exT.acceptedInputs id = some [[0,0],[0,0],[0,2],[1,1],[1,1],[1,1]] := by decide
+example : exT.acceptedInputsArr id = some [[0,0],[0,0],[0,2],[1,1],[1,1],[1,1]] := by decide
+example : acceptedSpec [2, 3] exV = [[0,0],[0,0],[0,2],[1,1],[1,1],[1,1]] := by decide
+/-- the order used by `accepted_inputs_sorted` is the lexicographic order of lists -/
+example : ([0, 2] : List Nat) < [1, 0] ∧ ([1, 0] : List Nat) < [1, 0, 0] ∧ ¬ ([1, 1] : List Nat) < [1, 0] := by decide
+
+/-! the same array in CP format (rank 2): `accepted_inputs_spec_any` applies — `t.tt()` has boundary ranks 1 -/
+def exCP : Tensor Nat :=
+  [ { core := .cp 2 2 (fun s k => if s = k then 1 else 0), U := none },
+    { core := .cp 3 2 (fun s k => if k = 0 then (if s = 0 then 2 else if s = 2 then 1 else 0)
+                                    else (if s = 1 then 3 else 0)), U := none } ]
+example : exCP.WF ∧ exCP.tt.boundaryOne = true ∧ exCP.isPureTT = false ∧
+    (∀ idx, inShape idx exCP.shape → exCP.dense idx = (exV idx : Nat)) := by
+  refine ⟨by simp [exCP, Tensor.WF, Tensor.WFfrom, TMode.ok, Core.rl], by decide, by decide, ?_⟩
+  intro idx h
+  match idx, h with
+  | [i, j], h =>
+    simp only [exCP, Tensor.shape, List.map_cons, List.map_nil, TMode.n, Core.spatial, inShape] at h
+    obtain ⟨hi, hj, _⟩ := h
+    have h1 : i = 0 ∨ i = 1 := by omega
+    have h2 : j = 0 ∨ j = 1 ∨ j = 2 := by omega
+    rcases h1 with rfl | rfl <;> rcases h2 with rfl | rfl | rfl <;> decide
+example : exCP.acceptedInputs id = some [[0,0],[0,0],[0,2],[1,1],[1,1],[1,1]] := by decide
 
 end TN.C16
